@@ -105,9 +105,10 @@ where
     }
 
     fn get(&self, item_idx: usize) -> Option<Idx> {
-        let value = self.range.start + item_idx.into();
-        match value.cmp(&self.range.end) {
-            Ordering::Less => Some(value),
+        let start: usize = self.range.start.into();
+        let end: usize = self.range.end.into();
+        match start.checked_add(item_idx) {
+            Some(value) if value < end => Some(value.into()),
             _ => None,
         }
     }
@@ -119,7 +120,7 @@ where
             .unwrap_or(self.initial_len());
         let begin_value = begin_idx + self.range.start.into();
         let end_value = match begin_value.cmp(&self.range.end.into()) {
-            Ordering::Less => (begin_value + n).min(self.range.end.into()),
+            Ordering::Less => begin_value.saturating_add(n).min(self.range.end.into()),
             _ => begin_value,
         };
         let end_idx: usize = end_value - self.range.start.into();
@@ -244,7 +245,11 @@ where
     /// ```
     fn into_seq_iter(self) -> Self::SeqIter {
         let current = self.counter().current();
-        (self.range.start + current.into())..self.range.end
+        let start: usize = self.range.start.into();
+        match start.checked_add(current) {
+            Some(value) => value.into()..self.range.end,
+            None => self.range.end..self.range.end,
+        }
     }
 
     #[inline(always)]
